@@ -179,6 +179,19 @@ def chainStep (d : Drv) (line : String) : Drv × String :=
       let r := runSched C sch d.node ls
       ({ d with node := r.1 }, " | ".intercalate (r.2.map (showRes r.1)))
     | _, _, _ => bad
+  -- the store accesses one uninterrupted `commit w` performs, per atomic model step (what the real commit's
+  -- yield sequence is compared with): apply = one put/delete per operation, root = one scan of the whole store,
+  -- append = writes from the block record to the height record
+  | ["ctrace", w] => match w.toNat? with
+    | some w =>
+      match findWs d.node.wss w with
+      | some ws =>
+        let ops := ws.ops.map fun t => match t with
+          | .put k _ => s!"put:{k}"
+          | .del k => s!"del:{k}"
+        (d, s!"apply={showList ops} root=scan append=block:{d.node.chain.height + 1}..meta")
+      | none => (d, "nows")
+    | none => bad
   -- raw chain stream
   | ["cinit", reg, ts] => match reg.toNat?, ts.toNat? with
     | some reg, some ts =>
